@@ -31,7 +31,7 @@ def post_merge(counters, extra):
 
 
 def plan(tier, seed):
-    n = 30 if tier == "quick" else 1500
+    n = 200 if tier == "quick" else 6000
     return [{"name": "s%d" % i, "seed": seed, "shard": i, "n_per_class": n} for i in range(NSHARDS)]
 
 
